@@ -215,14 +215,12 @@ Proof. vm_compute. intuition congruence. Qed.
 (** Builder: pre-sized, a position >= size, size 0, Set below / above Offset, an even value *)
 Example C12_Builder_nonvacuous :
   forallb bop_dom [BExtend [1; 70] 3; BExtend [] 0; BSet 200 (-1); BSet 0 1; BSet 5 2; BExtend [0] 1] = true /\
-  (exists b0 b, NewBuilder 100 = Some b0 /\
-     bfold b0 [BExtend [1; 70] 3; BExtend [] 0; BSet 200 (-1); BSet 0 1; BSet 5 2; BExtend [0] 1] = Some b /\
-     Words b = [3; 64; 0; 2^8 + 2^9] /\ Offset b = 202) /\
+  NewBuilder 100 = Some {| Words := []; Offset := 0 |} /\
+  bfold {| Words := []; Offset := 0 |}
+        [BExtend [1; 70] 3; BExtend [] 0; BSet 200 (-1); BSet 0 1; BSet 5 2; BExtend [0] 1]
+    = Some {| Words := [3; 64; 0; 2^8 + 2^9]; Offset := 202 |} /\
   fold_left astep [BExtend [1; 70] 3; BExtend [] 0; BSet 200 (-1); BSet 0 1; BSet 5 2; BExtend [0] 1] abs0
     = {| abits := [1; 70; 200; 0; 201]; aoff := 202 |} /\
   usort [1; 70; 200; 0; 201] = [0; 1; 70; 200; 201] /\
   ones (flat [3; 64; 0; 2^8 + 2^9]) = [0; 1; 70; 200; 201].
-Proof.
-  split; [reflexivity|]. split; [eexists; eexists; vm_compute; intuition reflexivity|].
-  vm_compute. intuition congruence.
-Qed.
+Proof. vm_compute. intuition congruence. Qed.
